@@ -86,7 +86,7 @@ def prove(ctx, module, needs):
     for f in needs + [module]:
         shutil.copy(os.path.join(vf.SPEC, f + ".tla"), work)
     try:
-        p = subprocess.run(["tlapm", "--threads", "8", module + ".tla"], cwd=work, capture_output=True, text=True, timeout=600)
+        p = subprocess.run(["tlapm", "--nofp", "--threads", "8", module + ".tla"], cwd=work, capture_output=True, text=True, timeout=600)
     except (subprocess.TimeoutExpired, FileNotFoundError) as e:
         ctx.inconclusive("tlapm %s: %s" % (module, e))
         return
